@@ -5,6 +5,7 @@ import (
 	"encoding/gob"
 	"fmt"
 	"path/filepath"
+	"sort"
 	"sync"
 
 	"github.com/pkg/errors"
@@ -352,6 +353,9 @@ func (sc *SubCache[EntityT, ExcerptT, CacheT]) AllIds() []entity.Id {
 		result[i] = excerpt.Id()
 		i++
 	}
+
+	// map iteration order changes from call to call: callers page through this list
+	sort.Slice(result, func(i, j int) bool { return result[i] < result[j] })
 
 	return result
 }
